@@ -102,6 +102,16 @@ func (w workflowEngine) Parse(
 		return nil, err
 	}
 	if stepWorkflowFileCache != nil {
+		for key, subworkflowFile := range stepWorkflowFileCache.Files() {
+			// The given files take precedence in the merge below. A sub-workflow path equal to the key
+			// of a different given file would silently load that file (the workflow itself, for the
+			// key the command line uses) as the sub-workflow.
+			if givenFile, taken := files.Files()[key]; taken && givenFile.AbsolutePath != subworkflowFile.AbsolutePath {
+				return nil, fmt.Errorf(
+					"sub-workflow path %q is also the key of the file %s; rename the sub-workflow file",
+					key, givenFile.AbsolutePath)
+			}
+		}
 		files, err = loadfile.MergeFileCaches(stepWorkflowFileCache, files)
 		if err != nil {
 			return nil, err
